@@ -1,12 +1,98 @@
-/- Driver family `aset`: C17 — animation sets.  (stub: replace `family`) -/
+/-
+Driver family `aset` (C17).  Case line
+  `<id> aset <meta> c:<clip,…> s:<label,slot1,…>*`
+(names: `~` absent, `-` empty, else hex of UTF-8; lists comma separated after a 2-char tag).
+Implementation / model line after the id:
+  `panic` | `err` | `ok <data-size|?> <bytes-hex> rr-err|rr-panic`
+  | `ok <data-size> <bytes-hex> rr-ok <re-read value> <same|hex|err|panic>`
+where the re-read value is `<meta>/c:…/s:…/…` and the last field is the re-serialisation of the
+re-read value compared with the first image.
+-/
 import Driver.Common
+import MilaModel.Model.Aset
+import MilaModel.Spec.Aset
 
 namespace Driver.Aset
-open Mila
+open Mila Mila.Aset
+
+def optOf (s : String) : Option Bytes := if s == "~" then none else some (hexOrBad s)
+
+def listOf (s : String) : List (Option Bytes) :=
+  let body := (s.drop 2).toString
+  if body.isEmpty then [] else (body.splitOn ",").map optOf
+
+def showOpt : Option Bytes → String
+  | none => "~"
+  | some b => hexOfBytes b
+
+def showList (tag : String) (l : List (Option Bytes)) : String :=
+  tag ++ ",".intercalate (l.map showOpt)
+
+def showFile (f : ASetFile) : String :=
+  "/".intercalate (showOpt f.metaStr :: showList "c:" f.animClipTable :: f.sets.map (showList "s:"))
+
+def fileOf (c : List String) : Option ASetFile :=
+  match c with
+  | _ :: "aset" :: m :: clip :: sets => some ⟨optOf m, listOf clip, sets.map listOf⟩
+  | _ => none
+
+/-- The model's line: serialize → parse → from_archive → serialize. -/
+def modelOut (f : ASetFile) : String :=
+  match serialize sjisSub f with
+  | .panic => "panic"
+  | .err _ => "err"
+  | .ok bytes =>
+    match BinArchive.parse sjisSub .little bytes with
+    | .ok a =>
+      let head := "ok " ++ toString a.size ++ " " ++ hexOfBytes bytes
+      match fromArchive a with
+      | .ok f' =>
+        let re := match serialize sjisSub f' with
+          | .ok b2 => if b2 = bytes then "same" else hexOfBytes b2
+          | .err _ => "err"
+          | .panic => "panic"
+        head ++ " rr-ok " ++ showFile f' ++ " " ++ re
+      | .err _ => head ++ " rr-err"
+      | .panic => head ++ " rr-panic"
+    | .err _ => "ok ? " ++ hexOfBytes bytes ++ " rr-err"
+    | .panic => "ok ? " ++ hexOfBytes bytes ++ " rr-panic"
+
+/-- A name of the property's domain: NUL-free and represented losslessly by the sub-codec. -/
+def nameOk (n : Option Bytes) : Bool :=
+  match n with
+  | none => true
+  | some s =>
+    match sjisSub.enc s with
+    | some b => !b.contains 0 && sjisSub.dec b == s
+    | none => false
+
+def inDomain (f : ASetFile) : Bool :=
+  decide (Spec.Aset.WF f.animClipTable f.sets) && nameOk f.metaStr && f.animClipTable.all nameOk
+    && f.sets.all (fun s => s.all nameOk)
+
+/-- The specification judged on the implementation's output line (independent of the model). -/
+def oracle (f : ASetFile) (i : List String) : String :=
+  if !inDomain f then "ok skip out-of-domain" else
+  match i with
+  | [_, "ok", size, bytes, "rr-ok", value, re] =>
+    let expect := Spec.Aset.dataSize f.sets
+    if size != toString expect then
+      "FAIL size: data section is " ++ size ++ " bytes, the formula gives " ++ toString expect
+    else if Spec.Aset.wordAt (hexOrBad bytes) 4 != some expect then
+      "FAIL size: header data-size word differs from the formula " ++ toString expect
+    else if value != showFile f then "FAIL roundtrip: re-read value differs from the input"
+    else if re != "same" then "FAIL idempotent: re-serialising the re-read value gives other bytes"
+    else "ok"
+  | _ :: "panic" :: _ => "FAIL panic"
+  | _ :: "err" :: _ => "FAIL serialize failed"
+  | _ => "FAIL roundtrip: the serialised file could not be re-read"
 
 def family : Family where
   State := Unit
   init := ()
-  step := fun _ _ _ => ((), "unimplemented", "FAIL unimplemented")
+  step := fun _ c i =>
+    match fileOf c with
+    | some f => ((), modelOut f, oracle f i)
+    | none => ((), "bad-case", "FAIL bad-case")
 
 end Driver.Aset
